@@ -35,3 +35,4 @@ def check(ctx):
     provrules.rule_pseudo_spans(ctx, facts, "R5")
     scopes.rule_refused_scope_masks(ctx, facts, "R6")
     scopes.rule_refuses_only_when_full(ctx, facts, "R7")
+    scopes.rule_span_lines_innermost_only(ctx, facts, "R8")
